@@ -268,7 +268,7 @@ func runC05(w *core.W) {
 	r := w.RNG("grid")
 	// the grid itself must be identical in every shard: derive it from the seed only
 	gr := rand.New(rand.NewSource(w.Seed*7919 + 17))
-	grid := c05Grid(gr, w.Pick(20, 120))
+	grid := c05Grid(gr, w.Pick(40, 400))
 	idx := 0
 	for i := range grid {
 		for j := range grid {
